@@ -237,7 +237,13 @@ func (h *c18Harness) compareTwins() *Violation {
 		// tolerance: one smallest unit, plus the float64 resolution of the module's intermediate (about 16 significant
 		// digits of principal+interest) per accrual step
 		steps := int64(h.triggers[va.Id] + 2)
+		// (of the debt after the final accrual: over decades it is orders of magnitude above the stored principal+interest)
 		base := new(big.Int).Add(v1.AmountOut.BigInt(), v1.InterestAccumulated.BigInt())
+		for _, o := range []sdk.Dec{oa, ob} {
+			if t := new(big.Int).Add(v1.AmountOut.BigInt(), o.TruncateInt().BigInt()); t.Cmp(base) > 0 {
+				base = t
+			}
+		}
 		noise := new(big.Int).Mul(base, big.NewInt(steps*4))
 		noise.Quo(noise, new(big.Int).Exp(big.NewInt(10), big.NewInt(15), nil))
 		// noise = steps*4e-15*(principal+interest) units (float64 resolution of the module's growth factor), plus the last
